@@ -155,7 +155,17 @@ def _run(d):
     ids = core.IdMap(nodes)
     s = nodes[d["start"]]
     res = {}
-    res["iter"] = [(ids(p), ids(c)) for p, c in dag_iterator(s)] if d["iter"] else None
+    if d["iter"]:
+        # consumed while ANOTHER traversal (from the first node) is alive and advanced in between, as in a nested loop
+        other = iter(dag_iterator(nodes[0]))
+        next(other, None)
+        got = []
+        for p, c in dag_iterator(s):
+            got.append((ids(p), ids(c)))
+            next(other, None)
+        res["iter"] = got
+    else:
+        res["iter"] = None
     res["anc"] = [ids(x) for x in s.ancestors]
     res["desc"] = [ids(x) for x in s.descendants]
     res["sib"] = [ids(x) for x in s.siblings]
